@@ -74,6 +74,50 @@ CHECKS.update({
     ),
 })
 
+CHECKS.update({
+    "C02": dict(
+        text="Lean theorems over the model of LDAPSession.receive: a strict prefix of an encoded message makes the decoder wait and consume nothing "
+             "(any cut, headers included); if the single delivery of a byte string returns messages, feeding the same bytes in ANY list of chunks "
+             "returns the same messages in the same order with no error and ends in the same session state (residue included), and conversely; the "
+             "stream of any well-formed messages parses back to exactly those messages. The aliasing clause (returned messages are self-contained "
+             "values) is outside any value-level model and is decided by the harness probe only (caller's buffer overwritten, messages re-compared).",
+        technique="Lean 4 proof (framing lemmas + induction over the chunk list) + correspondence; aliasing probe by harness",
+        ref="DESIGN.md §4 C02",
+    ),
+    "C05": dict(
+        text="Lean theorems: for any bytes, any recursion budget and any reachable session, receive yields messages or the protocol error (the "
+             "client's KeyError site is unreachable by the bookkeeping invariant); after an error the state is CLOSED and all further input is "
+             "refused; which notification is attached; the server's notice of disconnection is read back by the strict RFC decoder for every "
+             "diagnostic text; the client's unbind is well-formed up to known finding F-C05u. The theorem is about the model's inventory of exception "
+             "sites, which the correspondence (exception classes on random/corrupted/nested inputs) attacks.",
+        technique="Lean 4 proof (totality by case analysis + reachability invariant) + correspondence on exception classes",
+        ref="DESIGN.md §4 C05",
+    ),
+    "C06": dict(
+        text="Lean theorems against an independent framing spec (outer identifier + length only): in an error-free receive the number of messages "
+             "returned equals the number of complete outer units in residue ++ chunk and what is held back frames as incomplete; lifted to whole "
+             "error-free runs in any chunking; with a complete outer unit at the head the decoder never answers 'not enough data'.",
+        technique="Lean 4 proof (frame = outer read; parse loop vs frames; compositionality) + correspondence",
+        ref="DESIGN.md §4 C06",
+    ),
+    "C13": dict(
+        text="Lean theorems over the model of the filter text code: for every tree in the text domain (any depth/fan-out, arbitrary value octets) "
+             "parse (toText f) = f; unescape inverts escapeValue for every octet string; what escapeValue writes is printable ASCII without ( ) * \\ "
+             "plus \\hh escapes (byte class regenerated from the library's escape pattern), and toText is pure printable ASCII — no value content "
+             "can change the shape of a filter.",
+        technique="Lean 4 proof (mutual structural induction on filters; scanner lemmas) + correspondence",
+        ref="DESIGN.md §4 C13",
+    ),
+    "C15": dict(
+        text="Lean theorems: for any scalar-value string and any recursion budget the parser returns a filter or FilterSyntaxError(offset, length) "
+             "with offset+length inside the UTF-8 of the stripped input; scan loops never exhaust their fuel and RecursionError never escapes; "
+             "whatever is accepted has pattern-valid attributes/rules, lies in the text domain of C13 and therefore re-parses from its own text. "
+             "Known finding F-C15d (single-arc numeric OIDs accepted; pinned by the repo's tests).",
+        technique="Lean 4 proof (span/progress invariants by induction on depth and fuel) + correspondence on mutated and random text",
+        ref="DESIGN.md §4 C15",
+    ),
+})
+
 NOT_YET = {
 }
 
